@@ -205,7 +205,12 @@ func (engC09) Gen(r *Rng, s *Script, idx int, tier string) {
 		s.Config["steps"] = n
 		s.Config["itemlevel"] = level
 		ctr := 0
+		interleave := r.Chance(1, 3) // a wrapper kept by the caller is rendered while the table is still growing
 		for i := 0; i < n; i++ {
+			if interleave && r.Chance(1, 4) {
+				s.Steps = append(s.Steps, Step{Op: "render", A: r.Intn(NFormats), B: r.Intn(NDecoChoices), C: ViaReused, D: r.Intn(4)})
+				continue
+			}
 			s.Steps = append(s.Steps, genBuildStep(r, m, level, &ctr))
 		}
 		// valid renderer settings on columns (alignment incl. the column-0 default, skipable)
